@@ -138,6 +138,16 @@ var props = []*prop{
 		Thorough:    budget{Shards: 14, Checks: 1000000, TimeoutS: 3000},
 	},
 	{
+		ID: "C17", Pkg: "c17", Level: "exploration",
+		Technique:   "property-based testing (rapid): structural invariants of results and composite errors, plus error locations checked against the failing-location set of the draft-4 reference evaluator",
+		LevelText:   "Generated (schema, instance, root path) triples; validity <=> absence of errors; the one-shot composite error (code 422) must list exactly the result's messages without duplicates; every field-level error name must extend the root path and, for schemas nesting through properties/patternProperties/additionalProperties/tuple items, must be a location at which some keyword really fails according to the reference evaluator.",
+		LevelNote:   "Trusted: internal/refmodel's failing-location bookkeeping (same evaluator as C01), the path rendering rule (root + '.' + member, leading '.' dropped for an empty root).",
+		Assumptions: trusted,
+		Builds:      plain,
+		Quick:       budget{Shards: 14, Checks: 5000, TimeoutS: 400},
+		Thorough:    budget{Shards: 14, Checks: 120000, TimeoutS: 3000},
+	},
+	{
 		ID: "C20", Pkg: "c20", Level: "exploration",
 		Technique:   "stateful property-based testing (rapid) against an ordered-set + counter reference model",
 		LevelText:   "Generated call histories over validate.Result compared step by step with an independent ordered-set + counter model; every query and AsError checked on every result (incl. nil) after every step. Exploration: the property held on all generated histories, which is the right level for an all-histories claim with a cheap exact oracle.",
